@@ -97,8 +97,18 @@ def run(tier, seed, replay=None):
         fams = [("constraints", lambda r: rgen.constraint_program(r, core=(r.random() < 0.5))[0]), ("state-variable", lambda r: tlgen.sv_program(r)[0]),
                 ("reusable-resource", lambda r: tlgen.rr_program(r)[0]), ("interval", lambda r: tlgen.interval_program(r)[0]),
                 ("planning", lambda r: plgen.program(r)[0]), ("objects", lambda r: oogen.program(r)[0])]
-        nprog = 900 if tier == "quick" else 9000
-        progs = [(fams[i % 6][0], fams[i % 6][1](rng)) for i in range(nprog)]
+        # ill-typed text (an expression of one kind where another is expected): must be rejected with an error or
+        # accepted, never end abnormally
+        ILL = ["zb >= 1.0;", "real zy = zb + 1.0;", "-zb == 1.0;", "zs + 1.0 == 2.0;", "!zx;", "bool zc = zx & zx;", "zx -> zx;",
+               "zx >= 5.0 | zx <= -5.0;", "(zb * 2.0) == 1.0;", "zx == zb;", "zb == 1.0;", "bool zc = zx;", "real zy = zb;", "zs < 1.0;",
+               "zx ^ zb;", "real zy = zx / zb;", "zs == zx;", "zx.zq == 1.0;", "zb | 1.0;", "real zy = +zb;"]
+
+        def ill(r):
+            base = rgen.constraint_program(r, core=True)[0] if r.random() < 0.5 else ""
+            return base + "bool zb;\nreal zx;\nstring zs;\n" + r.choice(ILL) + "\n"
+        fams.append(("ill-typed", ill))
+        nprog = 1050 if tier == "quick" else 10500
+        progs = [(fams[i % 7][0], fams[i % 7][1](rng)) for i in range(nprog)]
         for cfg in e2e.cfgs(tier):
             outs = e2e.solve_all(cfg, [t for _, t in progs])
             st = {}
@@ -111,7 +121,7 @@ def run(tier, seed, replay=None):
                     worst = (t, o, fam, v)
             whole[cfg] = st
             if worst:
-                rep.violation(f"[{cfg}] a well-typed {worst[2]} program ends abnormally: {worst[3][:200]}", e2e.replay_of(worst[0], cfg, worst[1]), tags={"program:abnormal:" + cfg})
+                rep.violation(f"[{cfg}] {'an ill-typed' if worst[2] == 'ill-typed' else 'a well-typed ' + worst[2]} program ends abnormally: {worst[3][:200]}", e2e.replay_of(worst[0], cfg, worst[1]), tags={"program:abnormal:" + cfg})
     except vlib.BuildFailure as e:
         rep.violation("the solver does not build in a supported configuration", {"kind": "build", "theorem_or_correspondence": "cmake build of /repo", "log": str(e)}, no_input=True)
     # the repository's own example problems (the inputs of its solver tests), in a build with assertions on
